@@ -21,7 +21,7 @@ class C16(BaseCheck):
   REQUIRED_ANCHORS = ANCHORS
   REQUIRED_CLASSES = ('singleton', 'refcount', 'shared', 'concurrent-first-requests', 'replaced-after-failure',
                       'surplus-close', 'reopen-after-last-close', 'same-key', 'different-key')
-  QUICK_CASES = 450
+  QUICK_CASES = 1500
   THOROUGH_CASES = 18000
   QUICK_WALL = 40
   THOROUGH_WALL = 300
